@@ -7,4 +7,6 @@ require (
 	github.com/Breeze0806/mysql v1.4.2
 )
 
+require github.com/Breeze0806/go v0.0.0-20210513031655-61a934305111
+
 replace github.com/Breeze0806/gobinlog => /repo
